@@ -506,13 +506,9 @@ class SelectWith(Statement):
                         *[
                             (
                                 f"{branch[1].write(scope, self._target.result)} when others;"
-                                if (
-                                    sep == ";"
-                                    and isinstance(
-                                        TypeQualifier.decay(self._arg.result),
-                                        (Bit, BitVector),
-                                    )
-                                )
+                                # without default the last branch covers all remaining
+                                # values of the selector (like in the sequential form)
+                                if sep == ";"
                                 else f"{branch[1].write(scope, self._target.result)} when {branch[0].write(scope, self._arg.result)}{sep}"
                             )
                             for branch, sep in zip(branches, separators)
